@@ -24,6 +24,37 @@ type Solver struct {
 	Queries               int
 	Time                  time.Duration
 	log                   io.Writer
+	// portfolio: a second solver asked when this one answers "unknown" on an assertion query
+	fallbackBin  string
+	fallbackArgs []string
+	fallback     *Solver
+	FallbackHits int
+}
+
+// CheckAssert is Check for assertion queries: an "unknown" of the primary solver is retried once
+// with the fallback solver (another version / another solver), whose definite answer is used.
+func (s *Solver) CheckAssert(asserts []*Term) (bool, map[string]uint64, error) {
+	sat, m, err := s.Check(asserts)
+	if err == nil || s.fallbackBin == "" || !strings.Contains(err.Error(), "answered") {
+		return sat, m, err
+	}
+	if s.fallback == nil {
+		s.fallback = NewSolver(s.fallbackBin, s.fallbackArgs...)
+		s.fallback.send(fmt.Sprintf("(set-option :timeout %d)", 4*QueryTimeoutMs)) // the partner gets more time
+	}
+	sat2, m2, err2 := s.fallback.Check(asserts)
+	if err2 != nil {
+		return sat, m, err
+	}
+	s.FallbackHits++
+	return sat2, m2, nil
+}
+
+func (s *Solver) CloseAll() {
+	if s.fallback != nil {
+		s.fallback.Close()
+	}
+	s.Close()
 }
 
 func NewSolver(bin string, args ...string) *Solver {
